@@ -92,7 +92,7 @@ class RustMachine:
 class PyMachine:
     impl = "py"
 
-    def __init__(self, kb_irq=True, press_th=None, fast=False, trace=False):
+    def __init__(self, kb_irq=True, press_th=None, fast=False, trace=False, active_low=False):
         """fast: the emulator's minimal stepping path (`fast_mode`); trace: constructed with the perfetto / call-stack tracing
         switched on (observers only - no file is written unless a trace is started).  Both are configurations of the same machine:
         every architectural clause applies to them unchanged."""
@@ -100,7 +100,8 @@ class PyMachine:
         rom = bytearray(0x40000)
         rom[0x3FFFA:0x3FFFD] = bytes(VECTOR_BYTES)
         rom[0x3FFFD:0x40000] = bytes([MAIN & 0xFF, (MAIN >> 8) & 0xFF, (MAIN >> 16) & 0xFF])
-        self.emu = PCE500Emulator(trace_enabled=bool(trace), perfetto_trace=bool(trace))
+        # active_low: the keyboard columns are selected by 0 bits (constructor option; a fresh matrix then idles at KOL = 0xFF)
+        self.emu = PCE500Emulator(trace_enabled=bool(trace), perfetto_trace=bool(trace), **({"keyboard_columns_active_high": False} if active_low else {}))
         if fast:
             self.emu.fast_mode = True
         self.emu.load_rom(bytes(rom))
